@@ -64,6 +64,15 @@ def run(ctx):
     progs += gen
     dup = twin.duplabel_cases(ctx.rng("duplabel"), ctx.n(20, 200))
     progs += dup
+    # long operator chains and deep nests: `run` compiles on the runtime thread (4 MiB by default), `compile` on its own
+    long_ = []
+    for n in (100, 250, 500, 1000):
+        long_.append(("long:ident_sum_%d" % n, {"main.ms": "a = 1\nx = a" + "+a" * n + "\nprint x\n"}, "main.ms"))
+        long_.append(("long:str_concat_%d" % n, {"main.ms": 'a = "s"\nx = a' + "+a" * n + "\nprint x.len()\n"}, "main.ms"))
+    for n in (50, 100, 200):
+        long_.append(("long:if_nest_%d" % n, {"main.ms": "a = true\n" + "if a {\n" * n + "print 1\n" + "}\n" * n}, "main.ms"))
+        long_.append(("long:fn_nest_%d" % n, {"main.ms": "f = " + "fn() -> int {\nreturn (" * n + "1" + ")\n}()" * n + "\nprint 2\n"}, "main.ms"))
+    progs += long_
     items = [(PROP, name, files, entry, False, avoid) for name, files, entry in progs]
     cov = twin.collect_programs(PROP, out, items, sig_of)
     scov, chosen = twin.collect_strings(PROP, ctx, out)
@@ -74,7 +83,7 @@ def run(ctx):
     out.coverage["avoidance_rules"] = (
         ["programs whose emitted instruction arguments contain a character of a class listed in known_findings.json "
          "(%s) are not compared (their deviation is the listed finding)" % ", ".join(avoid)] if avoid else [])
-    out.coverage["workload_sizes"] = {"corpus": len(progs) - len(projects) - len(gen) - len(dup), "repeated_label_programs": len(dup), "projects": len(projects),
+    out.coverage["workload_sizes"] = {"corpus": len(progs) - len(projects) - len(gen) - len(dup) - len(long_), "long_chains_and_nests": len(long_), "repeated_label_programs": len(dup), "projects": len(projects),
                                       "generated_cf": len(gen), "string_values": len(chosen)}
     pick = [(i, v, twin.has_raw_form(v)) for i, v in chosen[617:620]]
     out.samples = [{"kind": "string batch program (role mapkey, 3 of ~200 literals)", "values": [v for _, v, _ in pick],
